@@ -23,13 +23,32 @@ fn check_subset(ctx: &mut Ctx, node: &Common, dropped: &[bool], label: &str) -> 
                 ));
             }
         };
-        if dec.pending_bytes() != 0 || dec.messages_in_progress() != 0 || msgs.len() != 1 {
+        // A packet is the unit that may be dropped, so a droppable packet has to consist of whole
+        // messages (removing it must not tear a message apart).  Apart from that the statement
+        // speaks about the concatenation, not about single packets: a packet carrying several
+        // whole messages is fine, and each message is judged against the expectation of the
+        // packet that completed it.
+        if p.droppable && (dec.pending_bytes() != 0 || dec.messages_in_progress() != 0 || msgs.is_empty()) {
             return Err(Violation::new(
                 format!("{}/transcript/packet-not-one-message", prop),
-                format!("{} session, packet #{} (call {}), drop subset '{}': packet decodes to {} complete messages with {} bytes left over", node.name, i, p.call_no, label, msgs.len(), dec.pending_bytes()),
+                format!("{} session, packet #{} (call {}), drop subset '{}': droppable packet decodes to {} complete messages with {} bytes left over", node.name, i, p.call_no, label, msgs.len(), dec.pending_bytes()),
             ));
         }
-        let m = &msgs[0];
+        if msgs.len() != 1 {
+            ctx.probe("c18.packet_with_other_than_one_message");
+        }
+        if let Want::Media { .. } | Want::MediaOn { .. } = &p.want {
+            // exactly the media message the application handed over (control messages may ride along)
+            let non_control = msgs.iter().filter(|m| !matches!(m.type_id, 1..=6)).count();
+            if non_control != 1 {
+                return Err(Violation::new(
+                    format!("{}/transcript/media-mismatch", prop),
+                    format!("{} session, packet #{} (call {}), drop subset '{}': the packet returned for one media item decodes to {} messages", node.name, i, p.call_no, label, non_control),
+                ));
+            }
+        }
+        for m in msgs.iter() {
+            let control_msg = matches!(m.type_id, 1..=6);
         // body well-formed for its type
         let body = match msg::decode(m) {
             Ok(b) => b,
@@ -81,6 +100,7 @@ fn check_subset(ctx: &mut Ctx, node: &Common, dropped: &[bool], label: &str) -> 
                     ));
                 }
             }
+            Want::MediaOn { .. } | Want::Media { .. } if control_msg => {}
             Want::MediaOn { type_id, msids, ts, len, hash, droppable } => {
                 if p.droppable && !*droppable {
                     return Err(Violation::new(
@@ -133,6 +153,7 @@ fn check_subset(ctx: &mut Ctx, node: &Common, dropped: &[bool], label: &str) -> 
                     ));
                 }
             }
+        }
         }
     }
     if let Err(e) = dec.finish() {
